@@ -1216,10 +1216,15 @@ func (g *Generator) generateValidateHeadersFunction(gf *protogen.GeneratedFile) 
 func (g *Generator) generateHeaderMergeLogic(gf *protogen.GeneratedFile) {
 	gf.P("// Merge service and method headers, with method headers taking precedence")
 	gf.P("allHeaders := make(map[string]*sebufhttp.Header)")
+	gf.P("// Keys in declaration order: violations are reported in a stable order")
+	gf.P("var headerOrder []string")
 	gf.P()
 	gf.P("// Add service headers first")
 	gf.P("for _, header := range serviceHeaders {")
 	gf.P("if header.GetRequired() {")
+	gf.P("if _, seen := allHeaders[strings.ToLower(header.GetName())]; !seen {")
+	gf.P("headerOrder = append(headerOrder, strings.ToLower(header.GetName()))")
+	gf.P("}")
 	gf.P("allHeaders[strings.ToLower(header.GetName())] = header")
 	gf.P("}")
 	gf.P("}")
@@ -1227,6 +1232,9 @@ func (g *Generator) generateHeaderMergeLogic(gf *protogen.GeneratedFile) {
 	gf.P("// Add method headers (override service headers if same name)")
 	gf.P("for _, header := range methodHeaders {")
 	gf.P("if header.GetRequired() {")
+	gf.P("if _, seen := allHeaders[strings.ToLower(header.GetName())]; !seen {")
+	gf.P("headerOrder = append(headerOrder, strings.ToLower(header.GetName()))")
+	gf.P("}")
 	gf.P("allHeaders[strings.ToLower(header.GetName())] = header")
 	gf.P("}")
 	gf.P("}")
@@ -1239,7 +1247,8 @@ func (g *Generator) generateHeaderValidationLoop(gf *protogen.GeneratedFile) {
 	gf.P("var violations []*sebufhttp.FieldViolation")
 	gf.P()
 	gf.P("// Validate each required header")
-	gf.P("for _, headerSpec := range allHeaders {")
+	gf.P("for _, headerKey := range headerOrder {")
+	gf.P("headerSpec := allHeaders[headerKey]")
 	gf.P("value := r.Header.Get(headerSpec.GetName())")
 	gf.P("if value == \"\" {")
 	gf.P("violations = append(violations, &sebufhttp.FieldViolation{")
